@@ -181,6 +181,13 @@ class SymInterp(Interp):
             c = d.const() if not d.is_zero() else 0
             return {"lt": c < 0, "le": c <= 0, "gt": c > 0, "ge": c >= 0, "eq": c == 0, "ne": c != 0}[name]
         sg = d.sign()
+        if sg not in ("pos", "neg") and d.symbols() and d.symbols() <= S.INFINITESIMAL and d.d.is_const():
+            # numbers plus terms in an infinitesimal positive symbol: the sign is that of the lowest-order term
+            dc = d.d.const_value()
+            low = min(sum(p for _, p in m) for m in d.n.t)
+            lead = sum(c for m, c in d.n.t.items() if sum(p for _, p in m) == low) / dc
+            if lead != 0:
+                sg = "pos" if lead > 0 else "neg"
         if sg in ("pos",):
             return {"lt": False, "le": False, "gt": True, "ge": True, "eq": False, "ne": True}[name]
         if sg in ("neg",):
